@@ -208,9 +208,14 @@ RunDiff(p, e, m) ==
 RunDetail(p, e, m) ==
   LET st  == IF m.lastbr THEN m.prev ELSE m.st
       bad == SelectSeq(Comps(e, st), LAMBDA c : c.ew # c.ow \/ c.ev # c.ov)
-      w   == IF m.at >= 1 /\ m.at <= Len(NativePcs(e)) THEN AOff(p, NativePcs(e)[m.at]) ELSE 2000000
-      i   == IF w % 4 = 0 /\ w < 4 * NW(p) THEN w \div 4 ELSE -1
+      pw(k) == IF k >= 1 /\ k <= Len(NativePcs(e)) THEN AOff(p, NativePcs(e)[k]) ELSE 2000000
+      la  == IF m.k = "diverge" THEN m.at - 1 ELSE m.at            \* index of the last address both sides agree on
+      i   == IF pw(la) % 4 = 0 /\ pw(la) < 4 * NW(p) THEN pw(la) \div 4 ELSE -1
+      \* that instruction is a delay-slot word that was entered by a jump (not behind its branch): the state
+      \* class of the shared delay-slot instance
+      slotjump == /\ i >= 1 /\ MIsBranch(DecAt(p, i - 1).mn) /\ pw(la - 1) # 4 * (i - 1)
   IN [at |-> m.at, expected_pc |-> m.pc, last_word |-> i, last_mn |-> IF i >= 0 THEN DecAt(p, i).mn ELSE "",
+      entered_slot_by_jump |-> slotjump,
       regs |-> [k \in 1..Len(bad) |-> [n |-> bad[k].n, v |-> bad[k].ev]]]
 
 \* ---- verdicts ------------------------------------------------------------------------------
